@@ -1,5 +1,6 @@
 import MosnVerif.Drive.Util
 import MosnVerif.Model.Redact
+import MosnVerif.Model.RawJson
 /-!
 Driver of C20.
 
@@ -14,6 +15,17 @@ Driver of C20.
 The model replays the history on `State`, computes `dumpOut`, and projects it to what the marshalers make visible.
 The property predicate only looks at the implementation's tokens: no `K` (typed TLS position) and no `H` (hole known
 to carry TLS contexts) marker in any body, and `frame=ok`.
+
+`raw <pos> R<esc text> [<op>] => reads=<ids> sec=S<esc text>|- <status:leaked:placeholders> ×5 frame=<ok|changed>`
+  ONE JSON text as the content of one untyped hole: `pos` = `ext` (kept verbatim: json.RawMessage, `SetExtend`) or
+  `nf` / `sf` / `lf` / `sink` (decoded into the Config map of a network / stream / listener filter or metrics sink by
+  the update `<op>`).  `reads` = the marker keys MOSN's consumers obtain from the text (encoding/json into
+  v2.TLSConfig at every object); `sec` = the hole content as the section handler returns it after redaction; then the
+  queries full, mosnconfig, alllisteners, listener=l0, allclusters.  The model decodes the text with
+  `RawJson.parseDoc`, evaluates `RawJson.redactedRaw` on the regenerated program (`ext`) / `redJ` on the decoded map,
+  and compares DECODED documents (member order and spelling of the encoder are free; text returned as is must be
+  identical).  The predicate: `frame=ok`, no `K`/`H` marker and no key the consumer reads in any body, and `sec`,
+  when it is a document, decodes (reference decoder, literal key `private_key`) to one with no such key.
 
 `graph => <Struct.Field=tls|hole …>`: the TLS-bearing and untyped fields of every struct reachable from the effective
 config as Go reflection sees them at run time, against the same list computed from the regenerated graph.
@@ -39,6 +51,9 @@ def unescStr (s : List Char) : Option String :=
     else (String.fromUTF8? (ByteArray.mk (t.toList.map (fun c => UInt8.ofNat c.toNat)).toArray))
   | none => none
 
+/-- content of a hole: decoded the way its consumer decodes it (escapes in keys, last duplicate wins) -/
+def parseJ (s : String) : Option Json := RawJson.parseDoc s.toList
+
 def isPlain (c : Char) : Bool := c.isAlphanum || c == '_' || c == '.' || c == '-' || c == '%'
 
 def spanPlain : List Char → List Char → List Char × List Char
@@ -55,7 +70,7 @@ def pVal : Nat → List Char → Option (Val × List Char)
     | 'H' :: r =>
       let (w, r') := spanPlain r []
       match unescStr w with
-      | some t => (Json.parse t).map (fun j => (Val.hole j, r'))
+      | some t => (parseJ t).map (fun j => (Val.hole j, r'))
       | none => none
     | 'T' :: r =>
       let (w, r') := spanPlain r []
@@ -103,7 +118,7 @@ def parseOp (t : String) : Option Op :=
   | ["hosts", n, v] => match unescStr n.toList, parseVal v with | some n, some v => some (.setHosts n v) | _, _ => none
   | ["router", v] => (parseVal v).map .setRouter
   | ["ext", n, j] =>
-    match unescStr n.toList, (unescStr j.toList).bind Json.parse with
+    match unescStr n.toList, (unescStr j.toList).bind parseJ with
     | some n, some j => some (.setExtend n j)
     | _, _ => none
   | ["cmtls", v] => (parseVal v).map .setCMTLS
@@ -253,6 +268,148 @@ def hist (toks impl : List String) : String :=
       let agree := model == impl
       s!"{if agree then "A" else "D"} {if specHist impl then "S" else "V"} {joinWith " " model}"
 
+/-! ### one raw text through every position -/
+
+mutual
+def holesOf : Val → List Json
+  | .hole j => [j]
+  | .struct _ fs => holesOfF fs
+  | .list vs => holesOfL vs
+  | .map kvs => holesOfF kvs
+  | _ => []
+def holesOfF : List (String × Val) → List Json
+  | [] => []
+  | (_, v) :: r => holesOf v ++ holesOfF r
+def holesOfL : List Val → List Json
+  | [] => []
+  | v :: r => holesOf v ++ holesOfL r
+end
+
+def insertKV (kv : String × Json) : List (String × Json) → List (String × Json)
+  | [] => [kv]
+  | y :: r => if kv.1 ≤ y.1 then kv :: y :: r else y :: insertKV kv r
+
+mutual
+/-- members sorted by key at every level (documents are compared up to member order) -/
+def canon : Json → Json
+  | .arr xs => .arr (canonL xs)
+  | .obj kvs => .obj ((canonO kvs).foldr insertKV [])
+  | j => j
+def canonL : List Json → List Json
+  | [] => []
+  | x :: r => canon x :: canonL r
+def canonO : List (String × Json) → List (String × Json)
+  | [] => []
+  | (k, v) :: r => (k, canon v) :: canonO r
+end
+
+def markerIds (ss : List String) : List String := ((ss.filter isMarker).map markerId).foldr insertMarker []
+
+/-- reference fold of a key, with the key name written out (not the regenerated constant) -/
+def isPKRef (k : String) : Bool := foldKey k == "private_key"
+
+mutual
+def cleanRef (key : Bool) : Json → Bool
+  | .str s => !key || s == "" || s == "***REDACTED***"
+  | .arr xs => cleanRefL xs
+  | .obj kvs => cleanRefO kvs
+  | _ => true
+def cleanRefL : List Json → Bool
+  | [] => true
+  | x :: r => cleanRef false x && cleanRefL r
+def cleanRefO : List (String × Json) → Bool
+  | [] => true
+  | (k, v) :: r => cleanRef (isPKRef k) v && cleanRefO r
+end
+
+def stripTok (pre : String) (t : String) : Option String :=
+  if t.startsWith pre then some (String.ofList (t.toList.drop pre.length)) else none
+
+def idsOf (s : String) : List String := if s == "" || s == "-" then [] else s.splitOn ","
+
+/-- `sec=S<esc>` → the text; `sec=-` → none -/
+def secText (t : String) : Option (List Char) :=
+  match stripTok "sec=S" t with
+  | some e => (unescStr e.toList).map String.toList
+  | none => none
+
+def noSecretLeak (r : String) : Bool :=
+  match r.splitOn ":" with
+  | [_, leaked, _] => leaked == "-" || (leaked.splitOn ",").all (fun m => m.startsWith "P")
+  | _ => false
+
+/-- property predicate of kind `raw`, on the implementation's tokens only -/
+def specRaw (impl : List String) : Bool :=
+  match impl with
+  | rd :: sc :: rest =>
+    let reads := idsOf ((stripTok "reads=" rd).getD "")
+    rest.getLast? == some "frame=ok" &&
+    rest.dropLast.all noSecretLeak &&
+    rest.dropLast.all (fun r => match r.splitOn ":" with
+      | [_, leaked, _] => (idsOf leaked).all (fun m => !reads.contains m)
+      | _ => false) &&
+    (match (secText sc).bind RawJson.parseDoc with
+     | some j => cleanRef false j && (markerIds (jstrings j)).all (fun m => !reads.contains m && !m.startsWith "H" && !m.startsWith "K")
+     | none => true)
+  | _ => false
+
+def rawQueries : List String := ["full", "p:mosnconfig:", "p:alllisteners:", "p:listener:l0", "p:allclusters:"]
+
+def sortS (l : List String) : List String := l.foldr insertSorted []
+
+def rawKind (toks impl : List String) : String :=
+  match toks with
+  | pos :: rawTok :: opToks =>
+    match (stripTok "R" rawTok).bind (fun e => unescStr e.toList) with
+    | none => "E E bad-raw-text"
+    | some rawS =>
+      let raw := rawS.toList
+      let doc := RawJson.parseDoc raw
+      -- `ext`: the redactor (and the dump) see the first value of the text; the text after it only decides validity
+      let out := RawJson.redactedRaw RawJson.rawProg (fun _ _ => false) (fun j => some (RawJson.render j)) raw
+      let ops? : Option (List Op) :=
+        if pos == "ext" then some (match RawJson.parseFirst raw with | some j => [.setExtend "e0" j] | none => [])
+        else opToks.mapM parseOp
+      match ops?, impl with
+      | some ops, rd :: sc :: results =>
+        if !(ops.all Op.wtArg) then s!"D {if specRaw impl then "S" else "V"} update-argument-not-a-value-of-the-regenerated-graph" else
+        let st := Redact.run ops
+        -- a raw message that is not a JSON document makes json.Marshal of the whole dump fail: empty body
+        let invalid := pos == "ext" && (RawJson.parseDoc out).isNone
+        let mReads := ",".intercalate (markerIds (match doc with | some j => RawJson.pkStrings false j | none => []))
+        let implSec := secText sc
+        -- the hole content after redaction
+        let secOK : Bool :=
+          if pos == "ext" then
+            match implSec with
+            | some t =>
+              if out == raw then t == raw
+              else match RawJson.parseDoc t, RawJson.parseDoc out with
+                | some a, some b => canon a == canon b
+                | _, _ => false
+            | none => false
+          else
+            match (st.toVal :: []).flatMap holesOf |>.filter (fun j => !(j == Json.null)), doc with
+            | [hole], some d =>
+              -- the map MOSN decoded holds the private-key strings the model's decoder finds in the text
+              sortS (RawJson.pkStrings false d) == sortS (RawJson.pkStrings false hole) &&
+              (match implSec.bind RawJson.parseDoc with
+               | some a => canon a == canon (redJ false hole)
+               | none => false)
+            | _, _ => false
+        match rawQueries.mapM (fun q => if q == "full" && invalid then some "200:-:0" else answer st q) with
+        | none => "E E bad-query"
+        | some rs =>
+          let frame := if rawQueries.all (fun q => dumpWrites st (match q.splitOn ":" with
+              | ["p", p, a] => .param p a
+              | _ => .full) == 0) then "frame=ok" else "frame=changed"
+          let model := [s!"reads={mReads}", if secOK then "sec=agrees" else "sec=differs"] ++ rs ++ [frame]
+          let agree := rd == s!"reads={mReads}" && secOK && results == rs ++ [frame]
+          s!"{if agree then "A" else "D"} {if specRaw impl then "S" else "V"} {joinWith " " model}"
+      | none, _ => "E E bad-op"
+      | _, _ => "E E bad-impl-tokens"
+  | _ => "E E bad-raw-case"
+
 /-! ### the graph as reflection sees it -/
 
 def tyKind : GoTy → Option String
@@ -281,6 +438,7 @@ def run (caseToks impl : List String) : String :=
   match caseToks with
   | "hist" :: r => hist r impl
   | ["graph"] => graph impl
+  | "raw" :: r => rawKind r impl
   | _ => "E E unknown-kind"
 
 end MosnVerif.Drive.C20
